@@ -402,7 +402,7 @@ fn domain(times: &[u64], periods: &[u64], rescheds: &[u64], pends: &[bool]) -> V
 }
 
 // watchdog: a stepping call that never returns (C08: "every stepping call returns") burns no fuel when the loop it spins
-// in calls no stub. The scenario being run is kept here; a thread reports it if it is still the same after 5 s.
+// in calls no stub. The scenario being run is kept here; a thread reports it if it is still the same after 30 s.
 static WD_TICK: AtomicU64 = AtomicU64::new(0);
 static WD_CUR: Mutex<Option<Scenario>> = Mutex::new(None);
 fn watchdog() {
@@ -418,10 +418,10 @@ fn watchdog() {
                 same = 0;
                 last = t;
             }
-            if same >= 20 {
+            if same >= 120 {
                 let cur = WD_CUR.lock().unwrap().clone();
                 if let Some(sc) = cur {
-                    println!("{{\"scenarios\":{},\"samples\":[],\"bound\":\"exploration stopped at the first call that did not return\",\"failures\":[{{\"check\":\"stepping-call-returns\",\"props\":\"C08\",\"count\":1,\"scenario\":{},\"expected\":{},\"detail\":\"the call had not returned after 5 s (every other scenario takes microseconds)\"}}]}}",
+                    println!("{{\"scenarios\":{},\"samples\":[],\"bound\":\"exploration stopped at the first call that did not return\",\"failures\":[{{\"check\":\"stepping-call-returns\",\"props\":\"C08\",\"count\":1,\"scenario\":{},\"expected\":{},\"detail\":\"the call had not returned after 30 s (every other scenario takes microseconds)\"}}]}}",
                         t, scenario_json(&sc), expect_json(&reference(&sc)));
                     std::process::exit(0);
                 }
